@@ -8,7 +8,8 @@ REPO = os.environ.get("VERIF_REPO", "/repo")
 # that regenerated files never disturb checks running against /repo)
 LEAN = os.environ.get("VERIF_LEAN", os.path.join(VERIF, "lean"))
 BUILD = os.environ.get("VERIF_BUILD", os.path.join(VERIF, "build"))
-EVID = os.path.join(VERIF, "evidence")
+# evidence committed under /verif/evidence always describes /repo itself; runs against another tree keep theirs in their build dir
+EVID = os.path.join(VERIF, "evidence") if REPO == "/repo" else os.path.join(BUILD, "evidence")
 REPLAY = os.path.join(BUILD, "replay")
 sys.path.insert(0, os.path.join(VERIF, "extract"))
 
